@@ -119,6 +119,14 @@ def run(ctx):
             facts = S.bool_facts_at(b)
             ok = any(truth is False and "PartialEq>::eq(" in e and "UsAscii" in e for (e, truth, g) in facts) or \
                 any(truth is True and "PartialEq>::ne(" in e and "UsAscii" in e for (e, truth, g) in facts)
+            if not ok:
+                # `match *self { CodePage::UsAscii => .., _ => self.encoding() .. }`: the call sits on an edge that excludes the UsAscii discriminant
+                vs_ = {v["name"]: v["idx"] for v in prog.adts["msi::internal::codepage::CodePage"]["variants"]}
+                ua = vs_.get("UsAscii")
+                for (e, truth, g) in facts:
+                    if re.fullmatch(r"discr\(\*+p1\)", e) and not isinstance(truth, bool):
+                        if (truth[0] == "notin" and ua in truth[1]) or (truth[0] == "!=" and truth[1] == ua) or (truth[0] == "==" and truth[1] != ua) or (truth[0] == "in" and ua not in truth[1]):
+                            ok = True
             ctx.check(ok, "GATE-ASCII", "%s calls encoding()" % short(f.name), "dominated by self != UsAscii",
                       "call of encoding() is not dominated by a `self == UsAscii` test; UsAscii reaches unreachable!()",
                       f.loc(t["sp"]), fn=f.name)
@@ -300,11 +308,15 @@ def run(ctx):
               "(unmappable characters would be re-read forever or skipped)", f.loc(), fn=f.name)
     if sw is not None:
         t = f.blocks[sw]["term"]
+        # per variant of the encoder result, on the body specialised to that variant (one match, or several `if let`s on the same result):
+        # does control come back to the encoder call, or leave the loop?
+        from ..spec import specialise
+        dexpr = S.val(t["discr"])
+        first = min((b for b in body if f.blocks[b]["term"]["t"] == "switch" and S.val(f.blocks[b]["term"]["discr"]) == dexpr), key=lambda b: len(dom[b]))
         exits = []
-        for v, tgt in t["cases"] + [["otherwise", t["otherwise"]]]:
-            if f.blocks[tgt]["term"]["t"] == "unreachable":
-                continue
-            r = cfg.reachable(f, tgt)
+        for v in (0, 1, 2):
+            g_ = specialise(prog, f, dexpr, v)
+            r = cfg.reachable(g_, first)
             if eb not in r:
                 exits.append(v)
         ctx.check(exits == [0], "REPL", "loop exit arms", "only the InputEmpty arm leaves the loop",
